@@ -34,7 +34,7 @@ ASSUMPTIONS = [
   'pop is only generated when no selected Variable is shared between paths or sits directly inside a list/dict/tuple (behaviour the property does not pin down)',
   'there is no scheduler or I/O behind this property; the simulator contributes long aliasing/edit histories against a model, gc instants and identity checks',
 ]
-PROBES = ['shared_variable', 'shared_or_cyclic_node', 'self_reference', 'pytree_container', 'long_list_container', 'cycle_in_graph', 'split_nonexhaustive_raises', 'merge_shuffled', 'update_foreign', 'pop_done', 'graphdef_differs_after_edit', 'gc_event']
+PROBES = ['shared_variable', 'shared_or_cyclic_node', 'self_reference', 'pytree_container', 'long_list_container', 'cycle_in_graph', 'split_nonexhaustive_raises', 'merge_shuffled', 'update_foreign', 'pop_done', 'graphdef_differs_after_edit', 'gc_event', 'metadata_edited_in_place', 'snapshot_restored']
 
 
 def setup_worker(w, tier):
@@ -58,10 +58,12 @@ def generate(rs, tier):
       api = dict(op='split_merge', root=root, filters=fs, shuffle=g.randrange(1000))
     elif r < 0.40:
       api = dict(op='state', root=root, filters=[W.gen_filter(g)] if g.random() < 0.4 else [])
-    elif r < 0.50:
+    elif r < 0.46:
       api = dict(op='graphdef', root=root, edit=g.random() < 0.5)
+    elif r < 0.50:
+      api = dict(op='keep', root=root)  # keep graphdef + state of this root; checked / restored by later ops
     elif r < 0.68:
-      api = dict(op='update', root=root, how=g.choice(['perturb', 'foreign', 'partial', 'two_states']), filt=W.gen_filter(g), delta=g.randrange(1, 9))
+      api = dict(op='update', root=root, how=g.choice(['perturb', 'foreign', 'partial', 'two_states', 'restore_kept', 'restore_kept']), filt=W.gen_filter(g), delta=g.randrange(1, 9))
     elif r < 0.78:
       api = dict(op='pop', root=root, filters=[W.gen_filter(g) for _ in range(g.choice([1, 1, 2]))])
     elif r < 0.88:
@@ -70,7 +72,12 @@ def generate(rs, tier):
       api = dict(op='iter_graph', root=root)
     else:
       api = dict(op='gc')
-    ops.insert(g.randrange(max(1, len(ops) // 2), len(ops) + 1), api)
+    pos = g.randrange(max(1, len(ops) // 2), len(ops) + 1)
+    ops.insert(pos, api)
+    if api['op'] == 'keep' and g.random() < 0.7:
+      # the history this snapshot is for: metadata edited in place afterwards, then the snapshot restored
+      ops.insert(pos + 1, dict(op='setmeta', var=g.randrange(64), key=g.choice(['tag', 'note']), value=g.choice(['x', 'y', 'frozen'])))
+      ops.insert(pos + 2, dict(op='update', root=root, how='restore_kept', filt={'e': True}, delta=1))
     if g.random() < 0.3:
       ops[-1:-1] = W.gen_build_ops(g, 2)[1:]
   return dict(engine='nnxworld', knobs=dict(gc_every=g.choice([0, 0, 3])), ops=ops)
@@ -135,6 +142,7 @@ def execute(plan):
   h = W.Heap()
   viol = None
   api_ops = 0
+  kept = []
   oi = -1
   op = {}
   try:
@@ -211,6 +219,32 @@ def execute(plan):
               raise Violation('graphdef-misses-edit', f'{where}: graphdef unchanged after a static attribute changed its value')
             res.probe('graphdef_differs_after_edit')
           log.add(oi, k)
+        elif k == 'keep':
+          gd = nnx.graphdef(r)
+          kept.append(dict(nid=nid, gd=gd, h=hash(gd), gd_copy=nnx.graphdef(nnx.clone(r)), state=nnx.state(r), leaves=[(p, l.id if isinstance(l, W.MVar) else None, W.leaf_rec_model(l), dict(l.meta) if isinstance(l, W.MVar) else None) for p, l in W.model_leaves(m)]))
+          log.add(oi, k)
+        elif k == 'update' and op['how'] == 'restore_kept':
+          # restore a snapshot taken earlier in the history: values AND metadata of every Variable go back to the
+          # snapshot (keys acquired since are gone), identities stay
+          cands = [c for c in kept if c['nid'] == nid]
+          if not cands:
+            continue
+          c = cands[-1]
+          now = [(p, l.id if isinstance(l, W.MVar) else None) for p, l in W.model_leaves(m)]
+          if now != [(p, i) for p, i, _, _ in c['leaves']]:
+            continue  # the structure changed since: a different (unpinned) question
+          nnx.update(r, c['state'])
+          for (p, l), (_, _, rec, meta) in zip(W.model_leaves(m), c['leaves']):
+            if isinstance(l, W.MVar):
+              l.value = np.frombuffer(rec[2][2], dtype=rec[2][0]).reshape(rec[2][1]).copy()
+              l.meta = dict(meta)
+            else:
+              parent = m
+              for key in p[:-1]:
+                parent = parent.attrs[key][1]
+              parent.attrs[p[-1]] = ('array', np.frombuffer(rec[3], dtype=rec[1]).reshape(rec[2]).copy())
+          res.probe('snapshot_restored')
+          log.add(oi, k, 'restore_kept')
         elif k == 'update':
           how = op['how']
           d = float(op['delta'])
@@ -321,6 +355,11 @@ def execute(plan):
       # global invariant: every root still equals its mirror and consists of the caller's own objects
       for nid in h.nodes:
         h.check_root(nid, f'after op {oi} {k}')
+      # a GraphDef is an immutable value: whatever happened to the graph it was taken from, it still equals the
+      # copy taken at the same moment and hashes as it did
+      for c in kept:
+        if c['gd'] != c['gd_copy'] or hash(c['gd']) != c['h']:
+          raise Violation('graphdef-changed', f'after op {oi} {k}: a GraphDef obtained earlier changed (no longer equal to the copy taken at the same time, or its hash moved)')
   except Violation as v:
     viol = dict(kind=v.kind, detail=v.detail)
   except kernel.HarnessError:
